@@ -98,11 +98,11 @@ pub struct PropInfo {
 
 const PT_REAL: &[&str] = &["altrios_core::consist::{Consist, Locomotive, FuelConverter, Generator, ElectricDrivetrain, ReversibleEnergyStorage} (real code)", "LocomotiveSimulation::walk / ConsistSimulation::walk (real code, cross-check driver)", "SerdeAPI save/load in yaml/json/bincode (real code)"];
 const PT_STUB: &[&str] = &["clock: the simulator issues every dt", "storage: in-memory byte buffers behind a simulated Read (short reads, EINTR)", "pyo3 layer: not run"];
-const PT_RULE: &str = "a case = generated consist/locomotive parameters (8 % of the consists constructed around one unit and completed through set_loco_vec) + seeded op list (ticks with closed-loop demand policy, crash/restore, interval changes, over-limit requests), or (C09: 15 %, C01 / C08: 6 % of the runs) the battery component driven alone the same way with charge / discharge buffers (world cmp); C01 only: one run in seven uses steps coarser than the derating bound; distinct = distinct hash of (scenario class, fault kinds fired, reach probes hit); non-trivial = at least 5 accepted ticks";
+const PT_RULE: &str = "a case = generated consist/locomotive parameters (aux loads 0-2 % of the rating, for one unit in twelve 6-20 %; 8 % of the consists constructed around one unit and completed through set_loco_vec) + seeded op list (ticks with closed-loop demand policy, crash/restore, interval changes, over-limit requests), or (C09: 15 %, C01 / C08: 6 % of the runs) the battery component driven alone the same way with charge / discharge buffers (world cmp); C01 only: one run in seven uses steps coarser than the derating bound; distinct = distinct hash of (scenario class, fault kinds fired, reach probes hit); non-trivial = at least 5 accepted ticks";
 
 const TRK_REAL: &[&str] = &["altrios_core::track::{PathTpc::extend/finish, insert_speed, TrainParams::speed_set_applies, Link} (real code)", "SerdeAPI save/load of the half-built PathTpc (real code)"];
 const TRK_STUB: &[&str] = &["storage: in-memory byte buffers behind a simulated Read", "train: TrainParams only (no train model in this world)"];
-const TRK_RULE: &str = "a case = generated network (corridor with sidings, flips, 0-6 restrictions per link on a coarse grid incl. nested/abutting/duplicate-bound/zero-length, head/tail-end sets, gated sets, per-train-type sets, 2-6 elevation points, headings incl. wrap-around, catenary) + contiguous route + train + seeded history of extend calls (partition, empty extensions, reloads, refused extensions); C02 / C13: 0.04 % of the runs are train simulations of world trn whose own path profile is judged after every extend_path; distinct = distinct hash of (scenario class, fault kinds fired, probes hit); non-trivial = route of >= 2 links or profile of >= 3 points";
+const TRK_RULE: &str = "a case = generated network (corridor with sidings, flips, 0-6 restrictions per link on a coarse grid incl. nested/abutting/duplicate-bound/zero-length, head/tail-end sets, gated sets, per-train-type sets, 2-6 elevation points, headings incl. wrap-around, catenary incl. zero-power sections) + contiguous route + train + seeded history of extend calls (partition, empty extensions, reloads, refused extensions); C02 / C13: 0.04 % of the runs are train simulations of world trn whose own path profile is judged after every extend_path; distinct = distinct hash of (scenario class, fault kinds fired, probes hit); non-trivial = route of >= 2 links or profile of >= 3 points";
 
 const VAL_REAL: &[&str] = &["altrios_core::track::{Network, Link}::validate and every ObjState::validate below it (real code)", "Network::from_yaml / from_json / from_reader / from_file incl. legacy-layout fallback (real code, real files in a scratch directory)"];
 const VAL_STUB: &[&str] = &["reader: simulated Read with short reads, EINTR, hard error and early EOF at seeded bytes"];
@@ -114,7 +114,7 @@ const MASS_RULE: &str = "a case = target (component / locomotive with or without
 
 const TRN_REAL: &[&str] = &["TrainSimBuilder, SetSpeedTrainSim, SpeedLimitTrainSim (step, extend_path, walk, walk_timed_path), BrakingPoints, FricBrake, TrainRes/Strap, PathTpc, Consist and everything below it (real code)", "SerdeAPI save/load of the whole simulation mid-run (real code)"];
 const TRN_STUB: &[&str] = &["dispatcher -> train authority channel: simulated (early / just in time / late / batched / empty deliveries)", "clock: the simulator issues every step; dt per run in {0.5, 1, 2} s, irregular trace stamps for set-speed runs", "pyo3 layer / run_speed_limit_train_sims: not run"];
-const TRN_RULE: &str = "a case = generated network (0-3 sidings, grades up to the bound, 0-4 extra restrictions per link, very short to very long links) + route + generated train (1-3 car types, 5-150 cars, 2-6 units incl. generated ones and occasionally the shipped hybrid unit, optional mass/length overrides, optional initial front offset, friction-brake ramp-up 0 s or 5-60 s) + optional 'heavy train behind one or two units on a long descent' scenario + driver (set-speed trace via shipped walk or simulator steps; speed-limited via shipped walk, walk_timed_path or simulator steps with an authority-delivery schedule) + crash/restore and interval-change points (optionally with a unit given an interval of its own first) + rolling-start / exact-landing set-speed traces + a run picked up by walk() after steps by hand + restriction sets gated at / one off the train's own axle count (10-35 % of the cases) + car types listed with zero cars (12 %) + consists completed after construction through set_loco_vec (10 %); distinct = distinct hash of (scenario class, fault kinds fired, probes hit); non-trivial = at least 5 (set-speed) / 20 (speed-limited) executed steps";
+const TRN_RULE: &str = "a case = generated network (0-3 sidings, grades up to the bound, 0-4 extra restrictions per link, very short to very long links) + route + generated train (1-3 car types, 5-150 cars, 2-6 units incl. generated ones and occasionally the shipped hybrid unit, optional mass/length overrides, optional initial front offset, friction-brake ramp-up 0 s or 5-60 s) + optional 'heavy train behind one or two units' scenario (on a long descent, or on an ordinary line with grades at the bound and mostly 2 s steps: stalls) + driver (set-speed trace via shipped walk or simulator steps; speed-limited via shipped walk, walk_timed_path or simulator steps with an authority-delivery schedule) + crash/restore and interval-change points (optionally with a unit given an interval of its own first) + rolling-start / exact-landing set-speed traces + a run picked up by walk() after steps by hand + restriction sets gated at / one off the train's own axle count (10-35 % of the cases) + car types listed with zero cars (12 %) + consists completed after construction through set_loco_vec (10 %); distinct = distinct hash of (scenario class, fault kinds fired, probes hit); non-trivial = at least 5 (set-speed) / 20 (speed-limited) executed steps";
 
 const DSP_REAL: &[&str] = &["make_est_times (real code, incl. thousands of SpeedLimitTrainSim steps per train)", "run_dispatch with its own scheduler, TrainDisp advance / rewind / free-path search / deadlock check (real code)", "observer hook H3/H4 reading link_disp_auths, links_blocked, TrainDisp views after every train move", "walk_timed_path protocol on the returned plans (sampled)"];
 const DSP_STUB: &[&str] = &["the dispatcher's scheduler is NOT replaced: its schedule space is sampled through departure times (incl. ties), train order, lengths, directions, topology and lockouts", "no fault is injected into the dispatcher (it has no I/O); its own rewinds / re-routes are the fault-like events, counted by probes"];
@@ -139,13 +139,13 @@ pub const PROPS: &[PropInfo] = &[
         assumptions: &["memory safety is decided at the level 'no out-of-range unchecked access on any explored history' (std unsafe-precondition checks live in the debug-assertions build)", "free-running time per pair of consecutive dispatch nodes read from the train's own EstTimeNet (DESIGN C05)"] },
     PropInfo { id: "C15", world: "dsp", level: "exploration", quick_runs: 3_000, thorough_runs: 100_000, rule: DSP_RULE, real: DSP_REAL, stub: DSP_STUB,
         assumptions: &["weak fit for this technique (DESIGN 5): the est-time network is a pure function of (train, network); checked where it is handed to the dispatcher", "all start-to-end walks are sampled (24 seeded walks per graph with alternatives)"] },
-    PropInfo { id: "C03", world: "trn", level: "exploration", quick_runs: 3_000, thorough_runs: 150_000, rule: TRN_RULE, real: TRN_REAL, stub: TRN_STUB,
+    PropInfo { id: "C03", world: "trn", level: "exploration", quick_runs: 6_000, thorough_runs: 150_000, rule: TRN_RULE, real: TRN_REAL, stub: TRN_STUB,
         assumptions: &["grade bound 0.8 % and dt in {0.5, 1, 2} s are domain parameters", "a timed walk's internal extension times are not observable: posted limits are evaluated over the path as it ended up", "bounded liveness is stated only after the last authority has been delivered and the last injected fault has fired"] },
-    PropInfo { id: "C07", world: "trn", level: "exploration", quick_runs: 3_000, thorough_runs: 150_000, rule: TRN_RULE, real: TRN_REAL, stub: TRN_STUB,
+    PropInfo { id: "C07", world: "trn", level: "exploration", quick_runs: 5_000, thorough_runs: 150_000, rule: TRN_RULE, real: TRN_REAL, stub: TRN_STUB,
         assumptions: &["force saved at step k belongs to the position and speed saved at step k-1 (statement)", "coefficients re-aggregated from the car list, mass-weighted over the towed mass as make_train_sim_parts documents", "tolerance 1e-9 relative + 1e-6 N", "the Point method is not produced by TrainSimBuilder and is not exercised"] },
-    PropInfo { id: "C11", world: "trn", level: "exploration", quick_runs: 3_000, thorough_runs: 150_000, rule: TRN_RULE, real: TRN_REAL, stub: TRN_STUB,
+    PropInfo { id: "C11", world: "trn", level: "exploration", quick_runs: 5_000, thorough_runs: 150_000, rule: TRN_RULE, real: TRN_REAL, stub: TRN_STUB,
         assumptions: &["tolerance 1e-9 relative (1e-8 on instantaneous power)"] },
-    PropInfo { id: "C12", world: "trn", level: "exploration", quick_runs: 3_000, thorough_runs: 150_000, rule: TRN_RULE, real: TRN_REAL, stub: TRN_STUB,
+    PropInfo { id: "C12", world: "trn", level: "exploration", quick_runs: 5_000, thorough_runs: 150_000, rule: TRN_RULE, real: TRN_REAL, stub: TRN_STUB,
         assumptions: &["offset advance tolerance 1e-5 m (the code snaps speed to its target within 1e-8 after integrating)", "a front exactly on a boundary may be reported on either adjacent segment"] },
     PropInfo { id: "C14", world: "trn", level: "exploration", quick_runs: 10_000, thorough_runs: 400_000, rule: TRN_RULE, real: TRN_REAL, stub: TRN_STUB,
         assumptions: &["the upper clip is min(published pwr_out_max, previous wheel power + published rate x the step's own dt), computed from published consist state; the lower clip is the sum of the units' drivetrain ratings", "tolerance 1e-9 relative"] },
